@@ -13,6 +13,7 @@ mod props;
 mod tycmp;
 mod c15;
 mod c16;
+mod c17;
 mod c18;
 mod gen;
 mod prog;
@@ -102,6 +103,7 @@ fn table(prop: &str) -> Option<(RunFn, ReplayFn)> {
         "C12" => (props::c12_run, props::c12_replay),
         "C15" => (c15::run, c15::replay),
         "C16" => (c16::run, c16::replay),
+        "C17" => (c17::run, c17::replay),
         "C18" => (c18::run, c18::replay),
         _ => return None,
     })
